@@ -230,6 +230,7 @@ RunPlan generate(uint64_t seed, const std::string& lens, const std::string& shap
 	p.wp.startLogger = r.chance(0.7);
 	const bool repl = (caps & CAP_SERIAL) || (caps & CAP_HISTORY);
 	if (repl && (L || is("C08") || is("C09") || ((is("C01") || is("C03") || is("C11") || is("C10")) && r.chance(0.4)))) p.wp.followers = r.range(1, 2);
+	if (caps & CAP_BUILTIN_RNG) p.wp.followers = 0;   // replicas cannot share the built-in generator's state: replay of random choices is not comparable
 	if (options.has("peer") && p.wp.followers > 0 && r.chance(0.5)) p.wp.peerConfig = options.at("peer").asStr();
 	p.wp.dropPct = r.pick(std::vector<int>{0, 0, 15, 35});
 	p.wp.dupPct = r.pick(std::vector<int>{0, 0, 15});
@@ -251,6 +252,7 @@ RunPlan generate(uint64_t seed, const std::string& lens, const std::string& shap
 	if ((caps & CAP_SERIAL) && (L || is("C08") || is("C09") || is("C03") || is("C10") || is("C01"))) { w[OP_SNAPSHOT] = std::max(w[OP_SNAPSHOT], 4); w[OP_CRASH] = 2; w[OP_RESTART] = 3; }
 	if (L || is("C10") || is("C11") || is("C03")) { w[OP_FORK] = 2; w[OP_KILL_ORIGINAL] = 2; }
 	if ((caps & CAP_BUILTIN_RNG) && avoid.count("copy_shares_builtin_rng")) { w[OP_FORK] = 0; w[OP_KILL_ORIGINAL] = 0; }
+	if (caps & CAP_BUILTIN_RNG) { w[OP_CRASH] = 0; w[OP_RESTART] = 0; }
 	if (is("C05")) { w[OP_REACT] = 30; w[OP_QUERY] = 18; w[OP_UPDATE] = 20; }
 	if (is("C06") || is("C07") || is("C19")) { w[OP_PLAN_APPEND] = plans ? 26 : 0; w[OP_SUCCEED] = plans ? 12 : 0; w[OP_FAIL] = plans ? 5 : 0; w[OP_PLAN_REMOVE] = plans ? 6 : 0; w[OP_PLAN_CLEAR] = plans ? 4 : 0; }
 	if (is("C16")) { w[OP_LOGGER] = logc ? 6 : 0; w[OP_UPDATE] = 40; }
